@@ -47,7 +47,6 @@ def _is_ref(o):
 
 class SymVal:
     __slots__ = ("e",)
-    __array_priority__ = 1000
 
     def __init__(self, e):
         self.e = e
